@@ -47,6 +47,7 @@ class Recorder:
   def __init__(self, path=None):
     self.knobs = {}
     self.ops = []
+    self.extra = []  # further (signature, detail, case) found in the same run
     self._f = open(path, "w", encoding="utf-8") if path else None
 
   def set_knobs(self, knobs):
@@ -70,7 +71,7 @@ class Recorder:
       self._f = None
 
 
-def execute(mod, rng=None, case=None, stats=None, oplog=None, keep_log=False, timeout=None):
+def execute(mod, rng=None, case=None, stats=None, oplog=None, keep_log=False, timeout=None, ctx=None):
   """One simulated run (generated from rng, or replayed from case). Never raises for SUT
   misbehaviour; harness bugs propagate as HarnessError."""
   rec = Recorder(oplog)
@@ -80,7 +81,7 @@ def execute(mod, rng=None, case=None, stats=None, oplog=None, keep_log=False, ti
   res = {"violation": None, "digest": None, "case": None, "steps": 0}
   try:
     with core.soft_alarm(timeout or mod.SOFT_TIMEOUT):
-      mod.run_one(rng=rng, case=case, stats=stats, rec=rec, log=log)
+      mod.run_one(rng=rng, case=case, stats=stats, rec=rec, log=log, ctx=ctx)
   except core.Violation as v:
     res["violation"] = {"signature": v.signature, "detail": v.detail}
   except core.RunTimeout:
@@ -88,6 +89,7 @@ def execute(mod, rng=None, case=None, stats=None, oplog=None, keep_log=False, ti
   finally:
     rec.close()
   res["case"] = rec.case() if case is None else case
+  res["extra"] = rec.extra
   if res["violation"]:
     log.add("VIOLATION", res["violation"]["signature"])
   res["digest"] = log.digest()
@@ -118,7 +120,9 @@ def _worker(conn, hb, slot, name, seed, segments, seg_size, total, resume_from, 
           continue
         hb[2 * slot] = i
         hb[2 * slot + 1] = int(time.monotonic() * 1000)
-        res = execute(mod, rng=core.rng_for(mod.ID, seed, i), stats=stats)
+        def beat(_slot=slot):
+          hb[2 * _slot + 1] = int(time.monotonic() * 1000)
+        res = execute(mod, rng=core.rng_for(mod.ID, seed, i), stats=stats, ctx={"seed": seed, "index": i, "beat": beat})
         n += 1
         steps += res["steps"]
         xor ^= int(res["digest"][:16], 16)
@@ -131,6 +135,11 @@ def _worker(conn, hb, slot, name, seed, segments, seg_size, total, resume_from, 
           if c < 2:
             viols.append((i, sig, res["violation"]["detail"], res["case"]))
           stats.count("violating_runs")
+          for xsig, xdetail, xcase in res["extra"]:
+            c = per_sig.get(xsig, 0)
+            per_sig[xsig] = c + 1
+            if c < 2:
+              viols.append((i, xsig, xdetail, xcase))
         elif len(stats.samples) < 2 and hasattr(mod, "sample_of"):
           stats.samples.append(mod.sample_of(res["case"]))
       hb[2 * slot] = -1
@@ -250,7 +259,7 @@ def determinism_selftest(name, mod, seed, worker_digests, sample):
     return out
   again = {}
   for i in idx[:min(len(idx), 64)]:
-    r = execute(mod, rng=core.rng_for(mod.ID, seed, i))
+    r = execute(mod, rng=core.rng_for(mod.ID, seed, i), ctx={"seed": seed, "index": i})
     again[i] = r["digest"]
     if r["digest"] != worker_digests[i]:
       out["same_process_mismatch"] += 1
@@ -400,12 +409,12 @@ def main(argv=None):
     a, b = (int(x) for x in args.digests.split(":"))
     out = {}
     for i in range(a, b):
-      out[str(i)] = execute(mod, rng=core.rng_for(pid, seed, i))["digest"]
+      out[str(i)] = execute(mod, rng=core.rng_for(pid, seed, i), ctx={"seed": seed, "index": i})["digest"]
     print(json.dumps(out))
     return 0
 
   if args.one is not None:
-    res = execute(mod, rng=core.rng_for(pid, seed, args.one), oplog=args.oplog, keep_log=args.show, timeout=args.soft_timeout)
+    res = execute(mod, rng=core.rng_for(pid, seed, args.one), oplog=args.oplog, keep_log=args.show, timeout=args.soft_timeout, ctx={"seed": seed, "index": args.one})
     if args.show:
       print("\n".join(res.get("events", [])))
       print(json.dumps(res["case"])[:20000])
@@ -498,7 +507,7 @@ def main(argv=None):
             detail = rr["detail"]
       except Exception:
         harness_errors.append("shrink failed for %s: %s" % (sig, traceback.format_exc()[-1500:]))
-    path = os.path.join(replays_dir, "%s-%d-%s.json" % (pid, seed, ("%d" % i if i >= 0 else "x%d" % n_sig)))
+    path = os.path.join(replays_dir, "%s-%d-%s-%08x.json" % (pid, seed, ("%d" % i if i >= 0 else "x%d" % n_sig), core.small_hash(sig) & 0xffffffff))
     core.write_json(path, {"property": pid, "seed": seed, "run": i, "signature": sig, "detail": detail[:4000],
                            "minimised": minimised, "case": case, "occurrences": sig_counts.get(sig, len(cases)),
                            "soft_timeout": tier.get("confirm_timeout", 120) if sig == "nontermination" else None,
